@@ -129,6 +129,8 @@ func opString(op Op, variant string) string {
 		return "delete files of " + op.N
 	case "host":
 		return "RegisterModule " + op.N + " +require"
+	case "blk":
+		return "regular file <dir>/" + op.N + " (no extension: blocks " + op.N + ".* as a directory)"
 	}
 	return op.K
 }
@@ -230,6 +232,11 @@ func runCase(c *fw.Ctx, cs *Case, count bool, transcript ...*[]string) (dv *dive
 			for _, p := range h.candidates(op.N) {
 				delete(m.files, p)
 			}
+		case "blk":
+			// a regular file where the search for N.x expects a directory: stat of
+			// <dir>/N/x.lua then fails with ENOTDIR, not ENOENT. Not a module file
+			// of any name (no template ends without extension): the model ignores it.
+			h.blockFile(op.N)
 		case "host":
 			var rv lua.LValue
 			o := gl.Protect(func() error {
@@ -584,6 +591,20 @@ func run(c *fw.Ctx) {
 			c.Note("family %s: alphabet of %d ops, %d accepted (history, source) cases up to length %d", fam.name, len(fam.alpha), idx-before, maxLen)
 		}
 	}
+	// 2b. "lists what was tried" when a candidate cannot be examined for a
+	// reason other than "no such file": a path component that is a regular
+	// file (ENOTDIR), a name longer than NAME_MAX (ENAMETOOLONG), a NUL byte
+	// (EINVAL). Fixed list, run by one shard.
+	if c.Shard == 5%c.NShards {
+		for _, cs := range statFailCases() {
+			c.Begin(cs)
+			d := runCase(c, cs, true)
+			if d != nil {
+				report(c, cs, d)
+			}
+			c.Count("statfail_histories", 1)
+		}
+	}
 	// 3. seeded random histories over the full alphabet
 	nr := c.Share(c.Pick(16000, 400000))
 	for i := 0; i < nr; i++ {
@@ -599,6 +620,24 @@ func run(c *fw.Ctx) {
 			c.Sample(sample(c, cs))
 		}
 	}
+}
+
+// statFailCases: missing modules whose candidate files fail stat with an
+// error other than ENOENT; alone and between loads of an ordinary module.
+func statFailCases() []*Case {
+	long := strings.Repeat("n", 300)
+	var out []*Case
+	for _, name := range []string{"blk.sub", "blk.sub.deep", long, "a." + long, long + ".b", "nul\x00x"} {
+		pre := []Op{}
+		if strings.HasPrefix(name, "blk.") {
+			pre = []Op{{K: "blk", N: "blk"}}
+		}
+		out = append(out,
+			&Case{Fam: "statfail", Var: "luapre", Ops: append(append([]Op{}, pre...), Op{K: "req", N: name})},
+			&Case{Fam: "statfail", Var: "file", Ops: append(append([]Op{{K: "def", N: "a", Beh: "tab"}, {K: "req", N: "a"}}, pre...),
+				Op{K: "req", N: name}, Op{K: "req", N: name}, Op{K: "req", N: "a"})})
+	}
+	return out
 }
 
 // sample re-runs a case with a transcript of what was observed at each step.
